@@ -424,7 +424,18 @@ func genCB(g *h.Gen) {
 						comb[0], comb[len(comb)-1] = comb[len(comb)-1], comb[0]
 					}
 				case 4:
-					st = RandStyle(r).String()
+					if r.Chance(70) {
+						st = MutateStyle(r, ParseStyleF(st)).String()
+						if r.Chance(50) { // first give the cell a hyperlink style, mark clean, then change one field
+							base := ParseStyleF(st)
+							base.Url, base.UrlId = "http://a", "id=1"
+							set(c.x, c.y, c.main, c.comb, base.String())
+							ops = append(ops, fmt.Sprintf("D %d %d 0", c.x, c.y))
+							st = MutateStyle(r, base).String()
+						}
+					} else {
+						st = RandStyle(r).String()
+					}
 				case 5:
 					m = RandRune(r)
 				case 6:
